@@ -21,6 +21,9 @@ EXTENDS Integers, Sequences, FiniteSets, TLC
 
 Translations == {"jd2patch", "patch2jd", "jd2merge", "merge2jd", "json2yaml", "yaml2json"}
 
+(* Emit: with -o the file holds exactly the library's bytes afterwards, whatever it held before *)
+(* (the harness pre-populates the file with longer stale content in half of the -o runs).        *)
+
 (* ---- the machine: phases of one process ------------------------------------ *)
 VARIABLES inv, phase, mode, result
 cvars == <<inv, phase, mode, result>>
